@@ -148,6 +148,7 @@ bool StepScript(InterpreterEnv& env)
         env.vfExec_history.push_back(env.vfExec);
         env.pbegincodehash_history.push_back(env.pbegincodehash);
         env.execdata_history.push_back(env.execdata);
+        env.opcode_pos_history.push_back(env.opcode_pos);
 
         if (!StepScript(env, pc)) {
             // undo above pushes
@@ -158,10 +159,12 @@ bool StepScript(InterpreterEnv& env)
             env.vfExec_history.pop_back();
             env.pbegincodehash_history.pop_back();
             env.execdata_history.pop_back();
+            env.opcode_pos_history.pop_back();
             return false;
         }
 
         // Update environment
+        ++env.opcode_pos; // position of the next opcode in this script (BIP342 codeseparator_pos), as in EvalScript
         env.curr_op_seq++;
         return true;
     }
@@ -209,6 +212,7 @@ bool StepScript(InterpreterEnv& env)
             pend = script.end();
             env.curr_op_seq++;
             env.nOpCount = 0; // reset to avoid hitting limit prematurely!
+            env.opcode_pos = 0;
             return true;
         }
         return set_error(serror, SCRIPT_ERR_BAD_OPCODE);
@@ -236,6 +240,7 @@ bool StepScript(InterpreterEnv& env)
             env.p2shstack = env.stack;
         }
         env.nOpCount = 0; // reset to avoid hitting limit prematurely!
+        env.opcode_pos = 0;
         return true;
     }
 
@@ -263,6 +268,7 @@ bool RewindScript(InterpreterEnv& env)
     env.vfExec = env.vfExec_history.back();
     env.pbegincodehash = env.pbegincodehash_history.back();
     env.execdata = env.execdata_history.back();
+    env.opcode_pos = env.opcode_pos_history.back();
     // Pop
     env.stack_history.pop_back();
     env.altstack_history.pop_back();
@@ -271,6 +277,7 @@ bool RewindScript(InterpreterEnv& env)
     env.vfExec_history.pop_back();
     env.pbegincodehash_history.pop_back();
     env.execdata_history.pop_back();
+    env.opcode_pos_history.pop_back();
     return true;
 }
 
